@@ -536,7 +536,7 @@ def _analyze_redirects(
 
         # Check output redirects against config
         if bare_op in (">", ">>", ">|", "&>", "&>>", ">&", "<>"):
-            redirect_match = match_redirect(target, config, cwd)
+            redirect_match = _match_written_file(target, config, cwd)
             if redirect_match:
                 if redirect_match.decision == "allow":
                     decisions.append(Decision("allow", f"redirect to {target}"))
@@ -551,6 +551,22 @@ def _analyze_redirects(
                 decisions.append(Decision("ask", f"redirect to {target}"))
 
     return decisions
+
+
+# Characters of a word that bash (or the tool) still rewrites: expansions, globs, braces
+_REWRITTEN_CHARS = frozenset("$`*?[{")
+
+
+def _match_written_file(target: str, config: Config, cwd: Path):
+    """Redirect rule that decides a file written by name.
+
+    An allow rule grants a file only when the word is the file's name as written:
+    `sub/$x/../f` or `l*` names whatever the expansion yields.
+    """
+    match = match_redirect(target, config, cwd)
+    if match and match.decision == "allow" and _REWRITTEN_CHARS.intersection(target):
+        return None
+    return match
 
 
 def _strip_fd_prefix(op: str) -> str:
@@ -692,7 +708,7 @@ def _analyze_simple_command(
                 # Skip safe redirect targets
                 if target in SAFE_REDIRECT_TARGETS:
                     continue
-                redirect_match = match_redirect(target, config, cwd)
+                redirect_match = _match_written_file(target, config, cwd)
                 if redirect_match:
                     if redirect_match.decision == "deny":
                         msg = redirect_match.message or redirect_match.pattern
@@ -1150,13 +1166,12 @@ def _extract_cd_target(node) -> str | None:
     if base != "cd":
         return None
     target_word = words[1]
-    # Only literal paths - no variables, command substitutions, etc.
+    # Only literal paths - no expansion of any kind ($x, ${!x}, $'..', $((1)), `cmd`), no globs
     if getattr(target_word, "parts", None):
-        for part in target_word.parts:
-            part_kind = getattr(part, "kind", None)
-            if part_kind in ("cmdsub", "param", "procsub"):
-                return None
+        return None
     target = _get_word_value(target_word)
+    if _REWRITTEN_CHARS.intersection(target):
+        return None
     # `cd -`, `cd ~-`, `cd ~+`, `cd ~user`, `cd -P`: not the name of a directory
     if target.startswith("-") or (target.startswith("~") and target[1:2] not in ("", "/")):
         return None
